@@ -299,11 +299,23 @@ func (o *OperandPegImpl) CalcOffsetByteSize() int {
 		}
 
 		// 2. 間接アドレス指定 ([reg+disp], [reg+reg*scale+disp] など)
-		// ディスプレースメントがない場合は 0 バイト (ただし16bitの[BP]は例外)
+		// 32ビットレジスタでアドレス指定する場合は、16ビットモードでも (67h 付きで) 32ビットの規則になる
+		addr32 := o.bitMode != cpu.MODE_16BIT || uses32BitAddressing(memInfo)
+
+		// ベースなしの [index*scale+disp] は mod=00, base=101 で常に disp32 を伴う
+		if addr32 && memInfo.BaseReg == "" {
+			return 4
+		}
+
+		// ディスプレースメントがない場合は 0 バイト (ただし [BP] / [EBP] ベースは例外)
 		if memInfo.Displacement == 0 {
-			// Special case: [BP] in 16-bit mode uses ModRM mode 01 with disp8=0.
-			if o.bitMode == cpu.MODE_16BIT && memInfo.BaseReg == "BP" && memInfo.IndexReg == "" {
+			// Special case: [BP] in 16-bit addressing uses ModRM mode 01 with disp8=0.
+			if !addr32 && memInfo.BaseReg == "BP" && memInfo.IndexReg == "" {
 				return 1 // disp8=0 for [BP]
+			}
+			// [EBP] and [EBP+index*scale] have no mod=00 form either.
+			if addr32 && memInfo.BaseReg == "EBP" {
+				return 1 // disp8=0
 			}
 			// Other cases like [BX], [SI], [BX+SI] etc. need no offset bytes with ModRM mode 00.
 			return 0
@@ -312,20 +324,14 @@ func (o *OperandPegImpl) CalcOffsetByteSize() int {
 		// ディスプレースメントがある場合
 		disp := memInfo.Displacement
 		// ModRM mode 01 (disp8) or 10 (disp16/32)
-		// 8ビットに収まるかチェック
 		if disp >= -128 && disp <= 127 {
-			// TODO: ModRM mode 00 で disp8 が使えないケース ([BP]以外) を考慮する必要があるかもしれないが、
-			//       現状は単純に8ビットに収まれば disp8 (1 byte) とする。
-			//       (例: [BX+disp8] は mode 01 を使う)
 			return 1 // disp8
 		}
 
-		// 8ビットに収まらない場合、ビットモードに応じて disp16 または disp32
-		if o.bitMode == cpu.MODE_16BIT {
-			// 16ビットモードでは、16ビットディスプレースメントを使用
+		// 8ビットに収まらない場合、アドレスサイズに応じて disp16 または disp32
+		if !addr32 {
 			return 2 // disp16
 		}
-		// 32ビットモードでは、32ビットディスプレースメントを使用
 		return 4 // disp32
 
 	}
@@ -516,11 +522,16 @@ func (o *OperandPegImpl) IsType(index int, targetType OperandType) bool {
 // ヘルパー関数 (isR32Type, isR16Type, isRegisterType, needsResolution) は operand_util.go に移動しました。
 // isR8Type と isR64Type も operand_util.go に追加しました。
 
+// uses32BitAddressing は、メモリオペランドが 32 ビットレジスタ (EAX など) でアドレス指定されているかを返します。
+func uses32BitAddressing(mem *MemoryInfo) bool {
+	return strings.HasPrefix(mem.BaseReg, "E") || strings.HasPrefix(mem.IndexReg, "E")
+}
+
 // CalcSibByteSize は、SIB バイトが必要な場合に 1 を、不要な場合に 0 を返します。
 func (o *OperandPegImpl) CalcSibByteSize() int {
 	memInfo, found := o.GetMemoryInfo()
-	// 32ビットモードでメモリオペランドがある場合のみ SIB の可能性を考慮
-	if found && memInfo != nil && o.GetBitMode() == cpu.MODE_32BIT {
+	// 32ビットアドレッシング (32ビットモード、または16ビットモードで32ビットレジスタを使う場合) のみ SIB の可能性を考慮
+	if found && memInfo != nil && (o.GetBitMode() == cpu.MODE_32BIT || uses32BitAddressing(memInfo)) {
 		// ModR/M rm=100 になる条件をチェック (calculateModRM のロジックを参考)
 		isDirectAddr := memInfo.BaseReg == "" && memInfo.IndexReg == ""
 		isEBPBasedNoIndex := memInfo.BaseReg == "EBP" && memInfo.IndexReg == ""
